@@ -153,3 +153,31 @@ Fixpoint count_next (i : nat) (evs : list event) : nat :=
   end.
 
 Definition is_splice (x : out) : bool := match x with OSplice _ _ _ => true | _ => false end.
+
+(* ====================================================================== *)
+(* Round 4: the remaining views of the object, as data.
+
+   wg.slice            slice(first, last) for the windows of firstlast           slices
+   wg.slice_array(sig, axis)
+                       np.take(sig, np.arange(first, last), axis=axis)           slice_array_model
+                       (a 2-D array is a list of rows; axis 0 / -2 takes rows,
+                        axis 1 / -1 takes the same positions inside every row)
+   wg.tscale(fs)       (first + (last - first - 1) / 2) / fs, one per window:    tscale_q
+                       as the exact rational numerator / denominator
+                       (first + last - 1) / (2 fs)  for an integer or rational fs = fn / fd *)
+Definition zslice {A} (l : list A) (a b : Z) : list A :=
+  firstn (Z.to_nat (b - a)) (skipn (Z.to_nat a) l).
+
+Definition take_axis (axis : Z) (sig : list (list Z)) (a b : Z) : list (list Z) :=
+  if (axis =? 0) || (axis =? -2) then zslice sig a b else map (fun row => zslice row a b) sig.
+
+Definition slices (ns nswin ov : Z) : option (list (Z * Z)) := firstlast ns nswin ov.
+
+Definition slice_array_model (ns nswin ov axis : Z) (sig : list (list Z)) : option (list (list (list Z))) :=
+  match firstlast ns nswin ov with
+  | Some l => Some (map (fun w => take_axis axis sig (fst w) (snd w)) l)
+  | None => None
+  end.
+
+(* time of window w at sampling rate fn/fd, as (numerator, denominator) *)
+Definition tscale_q (fn fd : Z) (w : Z * Z) : Z * Z := (tscale_num2 w * fd, 2 * fn).
